@@ -17,13 +17,16 @@ Mirrors, function by function (crates/trust-ide/src and crates/trust-hir/src):
 * `rename.rs::has_conflict` / `field_has_conflict` / `find_declaring_scope`                          → `conflict`
 * `references.rs::find_references_to_symbol_across_project` / `find_type_references_across_project`
   / `find_references_to_field` / `declaration_reference`                                             → `refsTo`
+* `references.rs::resolve_named_arg_parameter` (formal name of a named argument)                     → `resolveArg`
+* `references.rs::resolve_program_config_task` / `resolve_program_config_type`                       → `resolveCTask`, `resolveCProg`
 * `rename.rs::rename` / `rename_symbol` / `rename_field`                                             → `renameOcc`, `rename`
 
 The text of a project is abstracted to its identifier occurrences: every occurrence carries the
 number of non-identifier bytes that precede it (`pre`), so byte ranges are *derived* (`layout`) and
-a rename only changes names.  `binding` is the reference semantics of an occurrence (including the
-occurrence kinds the implementation never reports as references: formal names of named arguments,
-`WITH task` and the program type of a program configuration).
+a rename only changes names.  `binding` is the reference semantics of an occurrence.  Formal names of
+named arguments, `WITH task` and the program type of a program configuration are `Name` nodes (not
+`NameRef`s); since the repair of C16-missed-arg / -ctask / -cprog the reference search scans `Arg` and
+`ProgramConfig` nodes and reports them with the same resolution the analysis uses.
 -/
 namespace TrustVerif.C16
 
@@ -209,21 +212,37 @@ def resolveMember (P : Project) (o : Occ) : Option Decl :=
 def resolveCallee (P : Project) (c : Occ) : Option Decl :=
   if c.kind == .mem then resolveMember P c else resolveName P c
 
-/-- the parameters a named argument of the call with callee occurrence `c` can name -/
+/-- the parameters a named argument of the call with callee occurrence `c` can name
+(`type_check/calls/resolve.rs::resolve_call_target` + `callable_parameters`, mirrored by
+`references.rs::resolve_named_arg_parameter`): a FUNCTION, METHOD or FUNCTION_BLOCK symbol owns its
+parameters itself, anything else is an instance whose declared type must be a function block; the
+parameters are the `Parameter` children of the owner (VAR_INPUT / VAR_OUTPUT / VAR_IN_OUT). -/
 def paramList (P : Project) (c : Occ) : List Decl :=
   match resolveCallee P c with
   | none => []
   | some callee =>
-    let owner := if callee.kind == .func || callee.kind == .method then some callee else typeOfDecl P callee
+    let owner := if callee.kind == .func || callee.kind == .method || callee.kind == .fb then some callee
+                 else typeOfDecl P callee
     match owner with
     | none => []
     | some ow => (membersOf P ow).filter (fun c => c.kind == .param)
 
-/-- reference semantics of the formal name of a named argument (never consulted by the implementation) -/
+/-- `references.rs::resolve_named_arg_parameter`: the parameter the formal name of a named argument
+denotes (`f(p := x)`, `fb(p := x, q => y)`, `inst.m(p := x)`). -/
 def resolveArg (P : Project) (o : Occ) : Option Decl :=
   match baseOf P o with
   | none => none
   | some c => lookup (paramList P c) o.name
+
+/-- `references.rs::resolve_program_config_task` (and `check_scope_tasks_and_programs`): the TASK of
+that name declared in the same CONFIGURATION as the program instance (`link` = the configuration scope). -/
+def resolveCTask (P : Project) (o : Occ) : Option Decl :=
+  lookup ((declsIn P (o.link.getD 0)).filter (fun c => c.kind == .task)) o.name
+
+/-- `references.rs::resolve_program_config_type` (and `resolve_program_type`): the global symbol of that
+name in the merged table, if it is a PROGRAM. -/
+def resolveCProg (P : Project) (o : Occ) : Option Decl :=
+  (lookup (globalView P o.file) o.name).filter (fun c => c.kind == .prog)
 
 def declById (P : Project) (i : Nat) : Option Decl := P.decls.find? (fun c => c.id == i)
 
@@ -235,8 +254,8 @@ def binding (P : Project) (o : Occ) : Option Decl :=
   | .typ => resolveType P o
   | .mem => resolveMember P o
   | .arg => resolveArg P o
-  | .ctask => lookup ((declsIn P (o.link.getD 0)).filter (fun c => c.kind == .task)) o.name
-  | .cprog => (lookup (globalView P o.file) o.name).filter (fun c => c.kind == .prog)
+  | .ctask => resolveCTask P o
+  | .cprog => resolveCProg P o
   | .misc => none
 
 /-- Is occurrence `o` the base of a field expression (`b.x`)? -/
@@ -266,16 +285,19 @@ def conflict (P : Project) (reqFile : Nat) (d : Decl) (n : Name) : Bool :=
   P.decls.any (fun c => c.id != d.id && c.file == d.file && c.scope == d.scope && eqv c.name n)
 
 /-- Does the implementation report occurrence `o` as a reference to `d` (declaration included)?
-Non-type symbols: NameRef nodes and FieldExpr members; type symbols: names inside TypeRef; struct
-fields: field declarations and FieldExpr members.  `Name` nodes of arguments and of program
-configurations are never scanned. -/
+Non-type symbols: NameRef nodes, FieldExpr members, the formal names of named arguments (`Name` under
+`Arg`) and the task / program type names of program configurations (`Name`s under `ProgramConfig`);
+type symbols: names inside TypeRef; struct fields: field declarations and FieldExpr members. -/
 def refsTo (P : Project) (d : Decl) (o : Occ) : Bool :=
   match o.kind with
   | .decl => o.link == some d.id
   | .ref => !isType d.kind && (resolveName P o).map (·.id) == some d.id
   | .typ => isType d.kind && (resolveType P o).map (·.id) == some d.id
   | .mem => !isType d.kind && (resolveMember P o).map (·.id) == some d.id
-  | _ => false
+  | .arg => !isType d.kind && (resolveArg P o).map (·.id) == some d.id
+  | .ctask => !isType d.kind && (resolveCTask P o).map (·.id) == some d.id
+  | .cprog => !isType d.kind && (resolveCProg P o).map (·.id) == some d.id
+  | .misc => false
 
 /-! ## the guards of the partial theorems (all decidable, all evaluated by the driver) -/
 
@@ -306,7 +328,9 @@ def noClash (P : Project) (d : Decl) (n : Name) : Bool :=
   P.occs.all (fun o => stableQ d n (finalList P o) o.name (refsTo P d o))
 
 /-- **NoBlind**: every occurrence whose lookup finds `d` is one the implementation reports as a
-reference (excludes the named-argument / program-configuration occurrences bound to `d`). -/
+reference.  Since named arguments and program configurations are scanned (`c16_reference_search_complete`)
+this only excludes a name reference (NameRef) that denotes a TYPE symbol, and type-name / program-type
+occurrences whose global lookup finds a symbol of the wrong kind (unresolved names: not error-free). -/
 def noBlind (P : Project) (d : Decl) : Bool :=
   P.occs.all (fun o => lookup (finalList P o) o.name != some d || refsTo P d o)
 
@@ -398,8 +422,6 @@ def rename (P : Project) (f off : Nat) (n : Name) : Option (List Edit) :=
 /-! ## classification of what an accepted rename does to the bindings (executable, used by the
 check to tell the recorded defects from anything else) -/
 
-def blindKind (k : OKind) : Bool := k == .arg || k == .ctask || k == .cprog
-
 def isPouKind (k : DKind) : Bool := k == .prog || k == .func || k == .fb || k == .method
 
 def bindingId (P : Project) (o : Occ) : Option Nat := (binding P o).map (·.id)
@@ -412,11 +434,7 @@ def bindingsKept (P : Project) (d : Decl) (n : Name) : Bool :=
 def damage (P : Project) (d : Decl) (n : Name) : List String :=
   let P' := applyRename P d n
   let changed := P.occs.filter (fun o => bindingId P' (renameOccName P d n o) != bindingId P o)
-  let cls (o : Occ) : String :=
-    if refsTo P d o then "capture"
-    else if blindKind o.kind && bindingId P o == some d.id then
-      (match o.kind with | .arg => "missed-arg" | .ctask => "missed-ctask" | _ => "missed-cprog")
-    else "shadow"
+  let cls (o : Occ) : String := if refsTo P d o then "capture" else "shadow"
   (changed.map cls).eraseDups
 
 /-- after the rename two POU-kind symbols share a name (`util.rs::scope_for_pou` finds POU scopes by name) -/
@@ -483,6 +501,17 @@ def rangeAlias (P : Project) : Bool :=
   ds.any (fun a => isPou a.1 && ds.any (fun b => a.2.file != b.2.file && a.2.start == b.2.start && a.2.stop == b.2.stop &&
     eqv a.1.name b.1.name))
 
+/-- Number of ordered pairs of same-named VARIABLE / parameter declarations of different files that sit at
+the same byte range (template twins).  The analysis (trust-hir, not rename) then drops the
+`ImplicitConversion` warning of assignments to such a variable in both files; a rename that changes
+the length of an identifier in front of one of them ends the coincidence and the warnings appear (or
+the reverse).  The check tolerates exactly that diagnostic when this number changes. -/
+def varAlias (P : Project) : Nat :=
+  let ds := (layout P).filter (fun p => p.1.kind == .decl &&
+    (match p.1.link.bind (declById P) with | some c => isVarLike c.kind | none => false))
+  (ds.map (fun a => (ds.filter (fun b => a.2.file != b.2.file && a.2.start == b.2.start && a.2.stop == b.2.stop &&
+    eqv a.1.name b.1.name)).length)).sum
+
 /-- A struct-field rename searches member accesses of every file by comparing raw TypeIds that belong
 to different per-file symbol tables (`find_references_to_field_in_context`): a member access of the
 same name on another type may be rewritten too.  The model does not predict that; the region is:
@@ -492,9 +521,9 @@ def fieldX (P : Project) (d : Decl) (n : Name) : Bool :=
   d.kind == .field &&
   P.occs.any (fun o => o.kind == .mem && (eqv o.name d.name || eqv o.name n) && bindingId P o != some d.id)
 
-/-- number of occurrences bound to `d` that the implementation never reports as references -/
+/-- number of occurrences bound to `d` that the implementation does not report as references -/
 def blindRefs (P : Project) (d : Decl) : Nat :=
-  (P.occs.filter (fun o => blindKind o.kind && bindingId P o == some d.id)).length
+  (P.occs.filter (fun o => bindingId P o == some d.id && !refsTo P d o)).length
 
 /-- all edited occurrences are spelled exactly like the declaration -/
 def uniform (P : Project) (d : Decl) : Bool :=
